@@ -95,6 +95,13 @@ Npt ==
                   PEcho(E.none) /\ PEcho(E.vapor) /\ PEcho(E.liquid) /\ PEcho(E.init))
         /\ (distinct => Report("C03.hint_selects_branch", <<E.file, E.index, E.Tr, E.pr, E.vapor.rho, E.liquid.rho, l>>,
                                FLt(E.vapor.rho, E.liquid.rho)))
+        \* the builder's other routes to the same (T, p) - a volume or the total amount instead of the mole numbers - return the root new_npt returns for the same hint
+        /\ (Has(E, "routes") =>
+              \A k \in 1..Len(E.routes) :
+                 LET q == E.routes[k]
+                     direct == IF q.hint = "vapor" THEN E.vapor ELSE IF q.hint = "liquid" THEN E.liquid ELSE E.none
+                 IN (q.ok /\ direct.ok) => Report("C03.hint_selects_branch_on_every_route", <<E.file, E.index, E.Tr, E.pr, q.route, q.hint, q.rho, direct.rho, l>>,
+                                                   FClose(q.rho, direct.rho, "1e-8", FAbs(direct.rho), "0")))
         /\ ((distinct /\ gdiff /\ E.none.ok) =>
                Report("C03.no_hint_selects_lower_gibbs_energy", <<E.file, E.index, E.Tr, E.pr, E.none, E.vapor, E.liquid, l>>,
                       FClose(E.none.rho, stable.rho, "1e-8", FAbs(stable.rho), "0")))
